@@ -534,9 +534,11 @@ Qed.
 
 Lemma pct_unescape fl w s : pct_text (ctx_of fl) w s -> Escape.unescape (plus_of fl) w = Some s.
 Proof.
-  induction 1 as [|c w s Hc _ IH|h l a b w s Ha Hb _ IH]; [reflexivity| |].
+  induction 1 as [|c w s Hc _ IH|h l a b w s Ha Hb _ IH|w s Hq _ IH]; [reflexivity| | |].
   - destruct (raw_facts fl c Hc) as [H1 [H2 _]]. cbn [Escape.unescape]. rewrite H1, IH, H2. reflexivity.
   - cbn [Escape.unescape]. rewrite byte_eqb_refl. rewrite <- !hex_value_unhex, Ha, Hb, IH. reflexivity.
+  - (* '+' in a query string: url.QueryUnescape reads it as a space *)
+    destruct fl; try discriminate Hq. cbn [Escape.unescape plus_of] in *. rewrite IH. reflexivity.
 Qed.
 
 Lemma hex_not_illegal c a : hex_value c = Some a -> is_illegal c = false.
@@ -548,15 +550,17 @@ Qed.
 
 Lemma pct_no_illegal fl w s : pct_text (ctx_of fl) w s -> existsb is_illegal w = false.
 Proof.
-  induction 1 as [|c w s Hc _ IH|h l a b w s Ha Hb _ IH]; [reflexivity| |]; cbn [existsb].
+  induction 1 as [|c w s Hc _ IH|h l a b w s Ha Hb _ IH|w s Hq _ IH]; [reflexivity| | |]; cbn [existsb].
   - destruct (raw_facts fl c Hc) as [_ [_ [H3 _]]]. rewrite H3, IH. reflexivity.
   - rewrite (hex_not_illegal h a Ha), (hex_not_illegal l b Hb), IH. reflexivity.
+  - rewrite IH. reflexivity.
 Qed.
 
 Lemma pct_not_marker fl w s : s <> [] -> pct_text (ctx_of fl) w s -> w <> [] /\ bytes_eqb w txt_empty_string = false.
 Proof.
-  intros Hs H. inversion H as [|c w' s' Hc _|h l a b w' s' Ha Hb _]; subst; [contradiction Hs; reflexivity| |].
+  intros Hs H. inversion H as [|c w' s' Hc _|h l a b w' s' Ha Hb _|w' s' Hq _]; subst; [contradiction Hs; reflexivity| | |].
   - split; [discriminate|]. destruct (raw_facts fl c Hc) as [_ [_ [_ H4]]]. cbn [bytes_eqb txt_empty_string]. rewrite H4. reflexivity.
+  - split; [discriminate|]. reflexivity.
   - split; [discriminate|]. reflexivity.
 Qed.
 
@@ -596,7 +600,7 @@ Section Ror2Leaves.
   Qed.
 
   Lemma str_text_nonempty cx w s : str_text cx w s -> w <> [].
-  Proof. intros H. inversion H as [|w' s' Hs Hp]; subst; [discriminate|]. inversion Hp; subst; [contradiction Hs; reflexivity| |]; discriminate. Qed.
+  Proof. intros H. inversion H as [|w' s' Hs Hp]; subst; [discriminate|]. inversion Hp; subst; try discriminate. contradiction Hs; reflexivity. Qed.
 
   Lemma string_read w s tr : str_text (ctx_of fl) w s -> read_string unesc txt_empty_string (rinit w tr) = Ok (s, done tr).
   Proof.
@@ -662,3 +666,28 @@ Section Ror2Leaves.
       rewrite Nat.eqb_refl. reflexivity.
   Qed.
 End Ror2Leaves.
+
+(* ---- '+' in a query string is a space (and only there) ---- *)
+Example plus_is_space_in_query : forall e float_text,
+  ror2_denotes e float_text InQuery (TPrim PString) [x61; x2b; x62] (VStr [x61; x20; x62]).
+Proof.
+  intros e ft.
+  assert (Hp : pct_text InQuery [x61; x2b; x62] [x61; x20; x62]).
+  { apply pt_raw; [reflexivity|]. apply pt_plus; [reflexivity|]. apply pt_raw; [reflexivity | constructor]. }
+  exists (RText [x61; x2b; x62]). split.
+  - apply (rt_token InQuery _ [x61; x20; x62]). apply st_some; [discriminate | exact Hp].
+  - apply dn_leaf; [reflexivity|]. apply rl_string. apply st_some; [discriminate | exact Hp].
+Qed.
+
+Example plus_is_plus_in_path : pct_text InPath [x61; x2b; x62] [x61; x2b; x62] /\ ~ pct_text InPath [x61; x2b; x62] [x61; x20; x62].
+Proof.
+  split.
+  - repeat (apply pt_raw; [reflexivity|]). constructor.
+  - intros H. inversion H as [| | |]; subst. match goal with P : pct_text InPath [x2b; x62] _ |- _ => inversion P; subst; discriminate end.
+Qed.
+
+(* the model's query reader on "a+b" (QueryUnescape) yields "a b" *)
+Example plus_decoded_by_query_reader :
+  decR [] [x2a] ps_empty 0 (fun _ _ => None) (Escape.unescape true) txt_empty_string txt_list_open true 1 (TPrim PString)
+       (rinit [x61; x2b; x62] tracker0) = Ok (VStr [x61; x20; x62], done tracker0).
+Proof. reflexivity. Qed.
